@@ -1,6 +1,8 @@
 """C02 - power is credited exactly for proven, healthy, unexpired sectors (narrow clauses)."""
 from core import *
 from rules import *
+import provtable
+from props.provspecs import SPECS
 import sends as sendsmod
 
 LEVEL = 'other'
@@ -96,3 +98,51 @@ def run(prog, rep, tier, cfg):
     for c in AC.calls:
         if (c.callee or '').endswith('consensus_miner_min_power'):
             rep.need('K8', 'power:min-power-propagated', result_fate(AC, c) == 'try', 'propagated', c.where)
+
+    # ---- Window PoSt bookkeeping at deadline level: who is faulted at the deadline's end, who may be proven
+    DS = 'deadline_state::Deadline::'
+    PE = X.fn(DS + 'process_deadline_end', MI)
+    mp = [c for c in PE.calls if callee_is('partition_state::Partition::record_missed_post')(c)]
+    rep.need('K5', 'deadline-end:missed-post-site', len(mp) == 1 and result_fate(PE, mp[0]) == 'try', 'one record_missed_post(..)? per unproven partition', X.loc(PE))
+    X.iter_guard('K6b', 'deadline-end:only-unposted-partitions', PE, [c.bb for c in mp], m_pred('BitField::get', ['F:Deadline.partitions_posted'], False),
+                 'a partition whose index is in partitions_posted is skipped; every other partition is marked as having missed its PoSt')
+    # an unposted partition is skipped only if it has no recovering power AND all its live power is already faulty: from the
+    # "has recovering power" arm and from the "faulty != live" arm the iteration cannot end without marking the partition
+    heads = X.loop_heads(PE)
+    for nm, mt in (('recovering-power', m_pred('is_zero', [], False, direct='Partition.recovering_power')), ('not-all-faulty', m_rel('eq', ['F:Partition.faulty_power'], ['F:Partition.live_power'], False))):
+        cs = [(c, arm) for (c, arm) in X.find_conds(PE, mt) if arm in c.arms]
+        okc = bool(cs) and bool(mp) and all(not (heads & PE.reach([c.arms[arm]], blocked={mp[0].bb} | PE.errblocks)) and not PE.ok_returns_from([c.arms[arm]], blocked={mp[0].bb}) for (c, arm) in cs)
+        rep.need('K7', 'deadline-end:skip-only-if-all-faulty:%s' % nm, okc, 'an unposted partition with %s must be marked as having missed its PoSt in the same iteration (found %d test(s))' % (nm.replace('-', ' '), len(cs)),
+                 X.loc(PE, cs[0][0].bb) if cs else X.loc(PE))
+    sets = [c for c in PE.calls if (c.callee or '').endswith('::set') and 'Amt' in (c.callee or '') or (c.callee or '').endswith('Array::set')]
+    sets = [c for c in PE.calls if (c.callee or '').split('::')[-1] == 'set' and has_atom(prog.slicer.operand(PE, c.args[2]) if len(c.args) > 2 else set(), 'C:Partition::record_missed_post')] or \
+           [c for c in PE.calls if (c.callee or '').split('::')[-1] == 'set' and len(c.args) == 3]
+    rep.need('K7', 'deadline-end:partition-stored', bool(mp) and bool(sets) and all(result_fate(PE, c) == 'try' for c in sets) and
+             not set(X.loop_heads(PE)) & PE.reach([t for (t, _l) in PE.succ[mp[0].bb] if t == mp[0].target], blocked={c.bb for c in sets} | PE.errblocks),
+             'after record_missed_post the partition is stored back before the iteration ends', X.loc(PE, mp[0].bb) if mp else X.loc(PE))
+    # the flush is conditional on a "something changed" flag set in the same iteration: start the path at the block that raises the
+    # flag (flag values are tracked along paths), or at the store itself when the flush is unconditional
+    fl = [bb for bb in range(len(PE.blocks)) if mp and any(v in (1, True) for (_l, v) in PE._flag_updates(bb)) and PE.dominates(bb, mp[0].bb)]
+    wb = set(X.write_blocks(PE, 'Deadline', 'partitions'))
+    starts = fl[-1:] or [c.bb for c in sets]
+    rep.need('K7', 'deadline-end:partitions-flushed', bool(wb) and bool(starts) and not PE.ok_returns_from(starts, blocked=wb),
+             'once a partition was marked, no success return is reachable without flushing the partitions array into Deadline.partitions', X.loc(PE, starts[0]) if starts else X.loc(PE))
+    RP = X.fn(DS + 'record_proven_sectors', MI)
+    marks = [c for c in RP.calls if (c.callee or '').endswith('BitField::set') and X.updates_field(c, 'Deadline', 'partitions_posted')]
+    rep.need('K5', 'post:marks-posted', len(marks) == 1, 'each proven partition is recorded in partitions_posted', X.loc(RP))
+    X.guard('K6b', 'post:not-already-proven', RP, [c.bb for c in marks], m_pred('BitField::is_empty', ['F:Deadline.partitions_posted', 'OP:BitAnd'] if False else ['F:Deadline.partitions_posted'], True),
+            'partitions_posted ∩ proven partitions ≠ ∅ => Err (a partition is proven at most once per deadline)')
+    X.guard('K6b', 'post:no-duplicate-partitions', RP, [c.bb for c in marks], m_rel('ne', ['C:BitField::len'], ['P:7'], False), 'duplicate partition indexes in one submission => Err')
+    order = []
+    for nm in ('record_skipped_faults', 'recover_faults', 'activate_unproven'):
+        cs = [c for c in RP.calls if callee_is('partition_state::Partition::' + nm)(c)]
+        rep.need('K5', 'post:%s-site' % nm, len(cs) == 1 and (nm == 'activate_unproven' or result_fate(RP, cs[0]) == 'try'), 'one call of Partition::%s per proven partition' % nm, X.loc(RP))
+        order += cs[:1]
+    if len(order) == 3:
+        X.precedes('K7', 'post:skipped-faults-before-recovery', RP, [order[0].bb], [order[1].bb], 'skipped sectors are marked faulty (and their recovery retracted) before declared recoveries are credited')
+        X.precedes('K7', 'post:recovery-before-activation', RP, [order[1].bb], [order[2].bb], 'recoveries are processed before unproven sectors are activated')
+        X.followed_by('K7', 'post:partition-stored', RP, [order[2].bb], [c.bb for c in RP.calls if (c.callee or '').split('::')[-1] == 'set' and len(c.args) == 3], 'the updated partition is stored back')
+
+    # ---- frozen provenance table of the partition / deadline / expiration-queue summaries (tables/prov_miner_partition.json)
+    n = provtable.check(X, 'K10', 'summary', SPECS['miner_partition'], provtable.load_table('prov_miner_partition.json'), only_keys=[r'power', r'^ret:', r'^arg:', r'sectors', r'unproven', r'faults', r'recoveries', r'terminated'])
+    rep.floor('K10', 'summary_update_sites', n, 150)
